@@ -39,6 +39,8 @@ pub struct Diagnostic { span: Span, msg: String, syntax: bool }
 static PATTERN: AtomicU64 = AtomicU64::new(0);
 static CALLS: AtomicUsize = AtomicUsize::new(0);
 static BADCB: AtomicUsize = AtomicUsize::new(0);
+static LASTFLAG: AtomicUsize = AtomicUsize::new(0);
+static ERRNODES: AtomicUsize = AtomicUsize::new(0);
 static CURRENT: Mutex<String> = Mutex::new(String::new());
 static PROGRESS: AtomicU64 = AtomicU64::new(0);
 
@@ -80,7 +82,8 @@ fn walk(cst: &Cst<'_>, i: usize, leaves: &mut Vec<(Token, usize, Span)>, depth: 
     if depth > 10_000 { return Err(Fail("C02 tree too deep / cyclic".into())); }
     match cst.get(NodeRef(i)) {
         Node::Token(t, idx) => { let k = usize::from(idx); leaves.push((t, k, cst.span(NodeRef(i)))); Ok(i) }
-        Node::Rule(_, off) => {
+        Node::Rule(kind, off) => {
+            if kind == Rule::Error { ERRNODES.fetch_add(1, Ordering::SeqCst); }
             let end = i + usize::from(off);
             let sp = cst.span(NodeRef(i));
             let mut expect = i + 1;
@@ -109,6 +112,8 @@ fn check(src: &str, which: usize) -> Result<(), Fail> {
     let toks: Vec<Token> = src.chars().map(tok_of).collect();
     let mut diags = vec![];
     BADCB.store(0, Ordering::SeqCst);
+    LASTFLAG.store(0, Ordering::SeqCst);
+    ERRNODES.store(0, Ordering::SeqCst);
     let parser = Parser::new(src, &mut diags);
     let cst = match which { @ENTRIES@ _ => parser.parse(&mut diags) };
     let mut leaves = vec![];
@@ -125,6 +130,11 @@ fn check(src: &str, which: usize) -> Result<(), Fail> {
         if p <= lastpos && !(p == lastpos && false) { return Err(Fail(format!("C06 diagnostic at {} does not lie after the previous one at {}", p, lastpos))); }
         lastpos = p;
     }
+    // the last created callback is the one for the root, after everything else: no alternative can be
+    // pending any more (this is the `!in_ordered_choice` clause of the rule contract, which is only
+    // ASSUMED for functions outside Verus' subset)
+    if LASTFLAG.load(Ordering::SeqCst) != 0 { return Err(Fail("@CHOICEPROP@ the parse is over but the parser still believes it is inside an undoable alternative (in_ordered_choice is set): later mismatches return silently instead of being reported".into())); }
+    if ERRNODES.load(Ordering::SeqCst) != 0 && !diags.iter().any(|d| d.syntax) { return Err(Fail("@CHOICEPROP@ the tree contains an error node but no syntax diagnostic was reported (a mismatch was swallowed)".into())); }
     let _ = format!("{}", cst);
     Ok(())
 }
@@ -170,6 +180,15 @@ fn main() {
         false
     };
     if args.len() >= 3 && args[1] == "one" { if !run(&args[2]) { println!("PASS"); } return; }
+    if args.len() >= 3 && args[1] == "dump" {
+        // development aid: print the tree and the diagnostics of one parse (pattern 0, entry `parse`)
+        let mut diags = vec![];
+        let parser = Parser::new(&args[2], &mut diags);
+        let cst = parser.parse(&mut diags);
+        println!("{}", cst);
+        for d in &diags { println!("diag {:?} {:?} syntax={}", d.span, d.msg, d.syntax); }
+        return;
+    }
     let maxlen: usize = args.get(1).and_then(|s| s.parse().ok()).unwrap_or(4);
     let budget: u64 = args.get(2).and_then(|s| s.parse().ok()).unwrap_or(2_000_000);
     let mut count: u64 = 0;
@@ -222,7 +241,7 @@ def build_harness(gen_text, outdir):
     for a in asserts:
         cbs.append("    fn %s(&self) -> Option<Self::Diagnostic> { if next_bit() { Some(Diagnostic { span: 0..0, msg: String::new(), syntax: false }) } else { None } }" % a)
     for var, name in re.findall(r"Rule::(\w+)\s*=>\s*self\s*\.\s*create_node_(\w+)\s*\(", gen_text):
-        cbs.append("    fn create_node_%s(&mut self, r: NodeRef, _d: &mut Vec<Self::Diagnostic>) { match self.cst.data.nodes.get(r.0) { Some(Node::Rule(Rule::%s, _)) => {}, _ => { BADCB.fetch_add(1, Ordering::SeqCst); } } }" % (name, var))
+        cbs.append("    fn create_node_%s(&mut self, r: NodeRef, _d: &mut Vec<Self::Diagnostic>) { LASTFLAG.store(self.in_ordered_choice as usize, Ordering::SeqCst); match self.cst.data.nodes.get(r.0) { Some(Node::Rule(Rule::%s, _)) => {}, _ => { BADCB.fetch_add(1, Ordering::SeqCst); } } }" % (name, var))
     entries = re.findall(r"pub fn (parse_\w+)\(mut self", gen_text)
     entries = [e for e in entries if e != "parse_rule"]
     ent = " ".join("%d => parser.%s(&mut diags)," % (i + 1, e) for i, e in enumerate(entries))
@@ -236,6 +255,7 @@ def build_harness(gen_text, outdir):
     nonskip = [t for t in usable if t not in skips]
     src = src.replace("@PSKIP@", nonskip[-1] if nonskip else "Error")
     src = src.replace("@SKIPS@", "".join(" | Token::%s" % s for s in skips))
+    src = src.replace("@CHOICEPROP@", "C08" if re.search(r"in_ordered_choice\s*=\s*true", gen_text) else "C06")
     src = src.replace("@ENTRIES@", ent)
     src = src.replace("@ALPHACHARS@", "".join(cmap.values()) + errch)
     src = src.replace("@NPAT@", str(npat))
